@@ -638,7 +638,7 @@ func areaInstance(r *Rng, n int, dir string) (*AreaOut, error) {
 				}
 				d.Entries = append(d.Entries, e)
 			}
-			if len(d.Entries) > 0 && name != "dup" && r.Chance(12) {
+			if len(d.Entries) > 0 && name != "dup" && d.Flags&lmdb.DupSort == 0 && r.Chance(12) {
 				// the same key twice in one snapshot DBI (a foreign or buggy writer): the versions are joined like any
 				// others, whichever comes first — also when the DBI is new here
 				e0 := d.Entries[r.Intn(len(d.Entries))]
